@@ -119,6 +119,7 @@ pub struct Stats {
     pub grammars: BTreeSet<u64>,
     pub samples: Vec<Value>,
     pub rules_checked: BTreeMap<String, u64>,
+    pub digests: Vec<String>,
 }
 
 impl Stats {
@@ -772,6 +773,9 @@ pub fn gen_and_run(env: &Env, ctx: &Ctx, stream: u64, idx: u64, with_faults: boo
     let r = run_case(env, &case, &m, st);
     let h = fnv64(&[&case.grammar.bytes[..], case.spec.label().as_bytes(), &hist_hash[..]].concat());
     st.distinct.insert(h);
+    if crate::report::digest_on() {
+        st.digests.push(format!("{stream}:{idx}|{:016x}|{}|steps={}|final={:016x}|finding={}|tolerated={}", h, case.spec.label(), case.steps.len(), fnv64(&r.final_bytes), r.finding.as_ref().map(|f| format!("{}:{}@{}", f.1.rule, f.1.pattern, f.0)).unwrap_or_default(), r.tolerated.len()));
+    }
     if edited {
         st.nontrivial.insert(h);
     }
@@ -811,7 +815,8 @@ pub fn work(env: &Env, ctx: &Ctx, w: usize, nw: usize, plan: &[(u64, u64, bool)]
             idx += nw as u64;
         }
     }
-    json!({"stats": st.to_json(), "violations": viol})
+    let digests = std::mem::take(&mut st.digests);
+    json!({"stats": st.to_json(), "violations": viol, "digests": digests})
 }
 
 /// Replays a case; returns the violation class it shows, if any.
